@@ -1,6 +1,6 @@
 //go:build verif
 
-//verif:bounds framebuffer console: depth 8/16 (Fill: 8/16/24) with pitch padding 3 and a one-row logo (quick) or depth 8/15/16/24/32, padding {0,3}, logo {0,1} (thorough), RGB mask layout 5-5-5/5-6-5/8-8-8 (quick) or fully symbolic positions/sizes (thorough), colour indices 0..15 (quick) / 0..255 (thorough), pitch = row bytes + {0,3}, logo offset {0,1} rows, synthetic fonts 8x2 (1 byte/row) and 9x2 (2 bytes/row) with 4 glyphs of symbolic data, grid 2x2 cells plus one remainder column and one remainder row; every framebuffer byte arbitrary; every 32-bit x, y, width, height, line count; character < 4 (the synthetic fonts have 4 glyphs), every 8-bit colour index
+//verif:bounds framebuffer console: depth 8/16 (Fill: 8/16/24) with pitch padding 3 and a one-row logo (quick) or depth 8/15/16/24/32, padding {0,3}, logo {0,1} (thorough), RGB mask layout 5-5-5/5-6-5/8-8-8 (quick) or fully symbolic positions/sizes (thorough), colour indices 0..15 (quick) / 0..255 (thorough), pitch = row bytes + {0,3}, logo offset {0,1} rows, synthetic fonts 8x2 (1 byte/row) and 9x2 (2 bytes/row) with 4 glyphs of symbolic data, grid 2x2 cells plus one remainder column and one remainder row; every framebuffer byte arbitrary; every 32-bit x, y, width, height, line count; character < 4 (the synthetic fonts have 4 glyphs), every 8-bit colour index; SetPaletteColor: concrete checkerboard picture of two palette colours with padding bytes 0xee, new colour symbolic; fb_pack32: 32 bpp with R@24 G@16 B@8, Fill of one cell
 //verif:assumes the frame buffer is a Go slice of exactly height*pitch bytes (an access outside it is a Go index panic = violation); palette = the driver's own default palette; port writes stubbed
 package console
 
